@@ -34,7 +34,11 @@ pub fn csc_symv<T: FloatT>(A: &CscMatrix<T>, y: &mut [T], x: &[T], a: T, b: T) {
 // H3 : read-only per-iteration observer.  When armed (per thread) the default
 // solver's `Info::update` records the current internal iterate.
 #[derive(Clone, Debug)]
+#[allow(clippy::too_many_arguments)]
 pub struct IterRecord {
+    /// iteration counter and step length recorded by the solver when this iterate was reached
+    pub iter: u32,
+    pub alpha: f64,
     pub tau: f64,
     pub kappa: f64,
     pub x: Vec<f64>,
@@ -56,11 +60,13 @@ pub fn observer_take() -> Vec<IterRecord> {
     ITER_LOG.with(|l| l.borrow_mut().take().unwrap_or_default())
 }
 
-pub(crate) fn observer_push<T: FloatT>(tau: T, kappa: T, x: &[T], s: &[T], z: &[T]) {
+pub(crate) fn observer_push<T: FloatT>(iter: u32, alpha: T, tau: T, kappa: T, x: &[T], s: &[T], z: &[T]) {
     ITER_LOG.with(|l| {
         if let Some(log) = l.borrow_mut().as_mut() {
             let f = |v: &[T]| v.iter().map(|a| a.to_f64().unwrap()).collect::<Vec<f64>>();
             log.push(IterRecord {
+                iter,
+                alpha: alpha.to_f64().unwrap(),
                 tau: tau.to_f64().unwrap(),
                 kappa: kappa.to_f64().unwrap(),
                 x: f(x),
